@@ -63,6 +63,12 @@ add('C15',
     'Trusts tokenize, inspect and linecache; does not decide AST equality for every layout.',
     'DESIGN.md section 4, C15')
 
+add('C11',
+    'complete enumeration of identifier sources: every Namer.new_symbol call site with provenance of its reserved set (reaching definitions back to a scope annotation of the converted node), set-algebra evaluation of Scope.referenced and of the Namer loop test to membership formulas compared by truth table, CFG path check that parameters are always recorded as bound, template model classification of literal binders / literal free names with placeholder provenance, scan of hand-built Name/arg/def nodes',
+    'Decides that every identifier the converter can introduce is either generated against a reserved set that is `referenced` of a scope of the node being converted (read | bound | parents, computed on demand) and rejected while in namespace/reserved/generated, or a literal that cannot meet user identifiers (no literal binder shares a scope with user-provenance placeholders; no literal free name outside {ag__}). The four places that spell a builtin by name are listed known findings (F6).',
+    'Trusts that the activity analysis records every binding construct (C08 decides that) and that ag__ is the only injected alias; does not run differential tests.',
+    'DESIGN.md section 4, C11')
+
 NOT_APPLICABLE = {
     'C12': 'quantifies over run-time tracebacks, generated line layout and source-map contents, which exist only after the pipeline has run on a program; the only shape-level clause (exception re-creation table) is too small a part to claim the property through (DESIGN.md section 5)',
 }
